@@ -215,15 +215,18 @@ pub fn utf8_lossy(n: usize, at: usize, two: bool) {
 
 /// from_utf16 / from_utf16_lossy: `n` concrete units (ASCII and one surrogate pair) with ONE
 /// symbolic unit at `at`.
-pub fn utf16_one(n: usize, at: usize, lossy: bool) {
+pub fn utf16_one(n: usize, at: usize, lossy: bool, pair_first: bool) {
     let mut u = [0u16; 24];
     let mut i = 0;
     while i < n && i < 24 {
         u[i] = b'a' as u16 + (i % 26) as u16;
         i += 1;
     }
-    if n >= 4 {
-        u[1] = 0xD834; // 𝄞 = D834 DD1E
+    if pair_first && n >= 3 {
+        u[0] = 0xD834; // 𝄞 = D834 DD1E
+        u[1] = 0xDD1E;
+    } else if n >= 4 {
+        u[1] = 0xD834;
         u[2] = 0xDD1E;
     }
     u[at] = kani::any();
@@ -259,6 +262,45 @@ pub fn utf16_one(n: usize, at: usize, lossy: bool) {
     }
     kani::cover!(bad, "invalid unit");
     kani::cover!(!bad, "valid sequence");
+    assert!(shim::live() == 0, "[MEM] leak");
+    kani::cover!(true, "end of harness reached");
+}
+
+
+/// Concrete boundary sequences (every surrogate boundary in first and second position, the literal
+/// U+FFFD unit next to a pair): acceptance and text as std's decoder.  Literal inputs - the symbolic
+/// unit of `utf16_one` can only be the last one.
+pub fn utf16_boundaries(k: usize) {
+    const T: [[u16; 3]; 12] = [
+        [0xD800, 0xDC00, 0x41], [0xDBFF, 0xDFFF, 0x41], [0xDBFF, 0xDC00, 0xFFFD], [0xD800, 0xDFFF, 0xFFFD],
+        [0xDC00, 0xD800, 0x41], [0xDFFF, 0x41, 0x42], [0xD800, 0x41, 0x42], [0xDBFF, 0xDBFF, 0xDC00],
+        [0xFFFD, 0xD834, 0xDD1E], [0xD834, 0xDD1E, 0xFFFD], [0xD7FF, 0xE000, 0xFFFF], [0x41, 0xDBFF, 0xDFFF],
+    ];
+    let u = T[k];
+    let mut m = ModelStr::from_bytes_bounded(b"", 16);
+    let mut bad = false;
+    for c in char::decode_utf16(u.iter().copied()) {
+        match c {
+            Ok(c) => {
+                let (bytes, w) = model::encode(c as u32);
+                m.push_bytes(&bytes[..w]);
+            }
+            Err(_) => {
+                bad = true;
+                m.push_bytes(&[0xEF, 0xBF, 0xBD]);
+            }
+        }
+    }
+    let l = LeanString::from_utf16_lossy(&u);
+    check_handle(&l, &m);
+    drop(l);
+    match LeanString::from_utf16(&u) {
+        Ok(t) => {
+            assert!(!bad, "[C16] from_utf16 accepted an invalid sequence");
+            check_handle(&t, &m);
+        }
+        Err(_) => assert!(bad, "[C16] from_utf16 rejected a valid sequence"),
+    }
     assert!(shim::live() == 0, "[MEM] leak");
     kani::cover!(true, "end of harness reached");
 }
